@@ -128,6 +128,7 @@ ExpectedCb(e) ==
   ELSE IF ~ClientRequestValid(cur.q) THEN [which |-> "failure", errs |-> {ErrBadRequest, ErrInternal}, values |-> <<>>]
   ELSE IF cur.ev.peer = "silence" THEN [which |-> "failure", errs |-> {ErrResponseTimeout}, values |-> <<>>]
   ELSE IF cur.ev.peer = "close" THEN [which |-> "failure", errs |-> {ErrIoError}, values |-> <<>>]
+  ELSE IF cur.ev.peer = "badframe" THEN [which |-> "failure", errs |-> {ErrBadFraming}, values |-> <<>>]
   ELSE LET d == DecodeResponse(cur.q, cur.ev.reply) IN
        CASE d.class = "ok" -> [which |-> "complete", errs |-> {0}, values |-> d.values]
          [] d.class = "exc" -> [which |-> "failure", errs |-> {ExcToFfi(d.code)}, values |-> <<>>]
